@@ -3,6 +3,7 @@
 package app
 
 import (
+	"runtime/debug"
 	"encoding/json"
 	"fmt"
 	"math/rand"
@@ -251,6 +252,9 @@ func mgrRun(t *testing.T, out *verifh.Out, s mgrScn, dir string, kind string) {
 		tree.Put("active_nodes", hosts[:len(hosts)-1])
 	case 3:
 		tree.Del("active_nodes")
+	case 4:
+		// a host that was removed from the cluster is still listed
+		tree.Put("active_nodes", append(append([]string{}, hosts...), "gone"))
 	}
 	now := time.Now()
 	maintMode, shouldLeave := "", false
@@ -468,7 +472,7 @@ func mgrRun(t *testing.T, out *verifh.Out, s mgrScn, dir string, kind string) {
 		func() {
 			defer func() {
 				if r := recover(); r != nil {
-					panicked = fmt.Sprint(r)
+					panicked = fmt.Sprint(r) + " @ " + simSite(debug.Stack())
 				}
 			}()
 			next = app.stateManager()
@@ -569,7 +573,7 @@ func mgrGen(r *rand.Rand, focus string) mgrScn {
 	for i := 0; i < 3; i++ {
 		s.replica = append(s.replica, []int{0, 0, 0, 1, 2}[r.Intn(5)])
 	}
-	s.active = []int{0, 0, 0, 1, 2, 3}[r.Intn(6)]
+	s.active = []int{0, 0, 0, 1, 2, 3, 4}[r.Intn(7)]
 	s.last = []int{0, 0, 1, 2, 3, 4, 5, 6}[r.Intn(8)]
 	s.lock = []int{0, 0, 0, 0, 0, 0, 0, 1, 2}[r.Intn(9)]
 	switch focus {
